@@ -164,7 +164,11 @@ impl Arena {
         for (k, v) in q.iter() {
             let cur = r.get(k).copied().unwrap_or(self.lit0);
             let nv = if negq { self.sub(cur, *v) } else { self.add(cur, *v) };
-            r.insert(*k, nv);
+            if nv == self.lit0 {
+                r.remove(k);
+            } else {
+                r.insert(*k, nv);
+            }
         }
         r
     }
@@ -172,7 +176,9 @@ impl Arena {
         let mut r = BTreeMap::new();
         for (k, v) in p.iter() {
             let nv = self.mul(*v, s);
-            r.insert(*k, nv);
+            if nv != self.lit0 {
+                r.insert(*k, nv);
+            }
         }
         r
     }
